@@ -469,3 +469,39 @@ package multiplex
 //@   requires sesh != nil
 //@   modifies *
 //@   preserves heap(F_server.State.Panel), heap(F_server.State.AdminUID), heap(F_server.State.ProxyBook)
+
+// ---------------------------------------------------------------------------------------------
+// Receive path (C11 "dropped without effect, later frames still processed"; C12 teardown on read error)
+// ---------------------------------------------------------------------------------------------
+//@ define SKEEP Frame.StreamID, Stream.id, Stream.session, Session.sb, SessionConfig.MsgOnWireSizeLimit, Session.maxStreamUnitWrite, Session.streamSendBufferSize, SessionConfig.Unordered, SessionConfig.Valve, SessionConfig.Singleplex, Obfuscator.payloadCipher, switchboard.session, switchboard.valve, heap(B_Slice)
+//@ func makeStream
+//@   flag trusted
+//@   requires sesh != nil
+//@   ensures fresh(ret0) && ret0.id == id && ret0.session == sesh && ret0.recvBuf != nil && ret0.closed == 0
+//@ func (*Stream).recvFrame
+//@   flag trusted
+//@   requires s != nil && frame != nil
+//@   modifies *
+//@   preserves $SKEEP
+//@ func (Valve).rxWait
+//@   flag trusted
+//@ func (Valve).AddRx
+//@   flag trusted
+
+// recvDataFromRemote: a message that does not decode is answered with an error and NOTHING else happens:
+// no stream is looked up or created, no frame is delivered, the session is not closed.
+//@ func (*Session).recvDataFromRemote
+//@   requires sesh != nil && cipherOK(&sesh.Obfuscator) && sesh.sb != nil && holdsNone() && arrayOf(data) != arrayOf(sesh.sessionKey)
+//@   ensures droppedWithoutEffect: !succeeded("(*Obfuscator).deobfuscate") ==> ret0 != nil && !called("(*Stream).recvFrame") && !called("(*Session).passiveClose") && !called("(*Session).SetTerminalMsg") && !called("makeStream")
+//@   ensures closingOnlyIfDecoded: called("(*Session).passiveClose") ==> succeeded("(*Obfuscator).deobfuscate")
+//@   ensures locks: holdsNone()
+//@   modifies *
+//@   preserves $SKEEP
+
+// deplex: the receive loop of one connection ends only after a failed Read (and then tears the session
+// down); an undecodable or rejected message never ends it.
+//@ func (*switchboard).deplex
+//@   requires sb != nil && sb.session != nil && sb.valve != nil && conn != nil && holdsNone() && cipherOK(&sb.session.Obfuscator) && sb.session.sb != nil && sb.session.connReceiveBufferSize >= 0
+//@   ensures endsOnlyOnReadError: called("(*Session).passiveClose") && closedconn(conn)
+//@   flag noframe
+//@   loop 0 invariant live: holdsNone() && sb.session != nil && sb.valve != nil && cipherOK(&sb.session.Obfuscator) && sb.session.sb != nil && len(buf) == old(sb.session.connReceiveBufferSize) && fresh(buf)
